@@ -488,7 +488,7 @@ func checkFormulaFn(c *core.Ctx, al *algebra, name string, f *formulaFn) {
 	one, hundred := rint(1), rint(100)
 	pow := func(base, exp ratf) ratf { return al.atom("call", "Pow", base, exp) }
 	trunc := func(x ratf) ratf { return al.atom("trunc", "trunc", x) }
-	idiv := func(a, b ratf) ratf { return al.atom("intdiv", "intdiv", a, b) }
+	idiv := func(a, b ratf) ratf { return intdivAtom(al, a, b) }
 	var general, linear ratf
 	var text string
 	switch name {
